@@ -782,7 +782,7 @@ class VM:
             key = self.stack.pop()
             if not isinstance(obj, JSObject):
                 raise JSTypeError("Cannot use 'in' operator on non-object")
-            key_str = to_string(key)
+            key_str = self._to_string(key)
             self.stack.append(self._has_property(obj, key_str))
 
         # Control flow
@@ -1167,7 +1167,7 @@ class VM:
         if obj is UNDEFINED or obj is NULL:
             raise JSTypeError(f"Cannot read property of {obj}")
 
-        key_str = to_string(key) if not isinstance(key, str) else key
+        key_str = self._to_string(key) if not isinstance(key, str) else key
 
         if isinstance(obj, JSArrayBuffer):
             if key_str == "byteLength":
@@ -2565,7 +2565,7 @@ class VM:
         if obj is UNDEFINED or obj is NULL:
             raise JSTypeError(f"Cannot set property of {obj}")
 
-        key_str = to_string(key) if not isinstance(key, str) else key
+        key_str = self._to_string(key) if not isinstance(key, str) else key
 
         if isinstance(obj, JSTypedArray):
             try:
@@ -2671,7 +2671,7 @@ class VM:
     def _delete_property(self, obj: JSValue, key: JSValue) -> bool:
         """Delete property from object."""
         if isinstance(obj, JSObject):
-            key_str = to_string(key) if not isinstance(key, str) else key
+            key_str = self._to_string(key) if not isinstance(key, str) else key
             return obj.delete(key_str)
         return False
 
